@@ -1781,6 +1781,10 @@ func runHistory(cfg *sysCfg, hist []string, after func(s *sys, r *runResult)) *r
 	case x.Panic != "":
 		res.sched = "panic"
 		res.sig, res.detail = "panic-in-dispatcher", x.Panic
+		if strings.Contains(x.Panic, "close of closed channel") && strings.Contains(x.Panic, ".onKilled(") {
+			// a `crunch-run --kill` returned after the runner had been closed by someone else
+			res.sig = "panic-in-dispatcher:kill-answer-closes-runner-twice"
+		}
 	case x.Deadlock:
 		res.sched = "deadlock"
 		res.sig, res.detail = "deadlock", x.Blocked
